@@ -492,12 +492,12 @@ def float_to_int_rule(ctx, rule):
     rep.ob(rule, "radix-parse-is-i64-from_str_radix-of-the-string", ok, why, cast.loc(), how="i64::from_str_radix(s, radix)")
 
 
-def string_to_number_rule(ctx, rule):
+def string_to_number_rule(ctx, rule, prefix="src/exec/", floor=2):
     from ..core import callee_def
     F, rep = ctx.F, ctx.rep
     n = 0
     for fn in F.all_bodies(tests=False):
-        if not fn.file.startswith("src/exec/") or fn.is_derived():
+        if not fn.file.startswith(prefix) or fn.is_derived():
             continue
         for bi, t in fn.calls():
             if t["callee"].get("name") != "parse" or "str" not in (callee_def(t) or ""):
@@ -510,8 +510,8 @@ def string_to_number_rule(ctx, rule):
                 ok, why = False, "%s reads a string as a number with %s: what the float parser accepts (and how it rounds huge values) is no longer what decides" % (top.path, inst)
             else:
                 names = common.deep_call_names(F, fn, t["args"][0])
-                extra = sorted(x for x in names if x not in ("deref", "as_str", "as_ref", "borrow", "as_mut", "deref_mut", "arith_coerced", "decay", "to_key"))
+                extra = sorted(x for x in names if x not in ("deref", "as_str", "as_ref", "borrow", "as_mut", "deref_mut", "arith_coerced", "decay", "to_key", "substr", "find_next_index", "find_next_word_end", "len", "clone"))
                 if extra:
                     ok, why = False, "%s prepares the text with %s before parsing it as a number: strings the language does not read as numbers become numbers (or the reverse)" % (top.path, extra)
             rep.ob(rule, "string-as-number::%s#%d" % (top.path, sum(1 for b2, t2 in fn.calls() if b2 < bi and t2["callee"].get("name") == "parse")), ok, why, fn.loc(t["line"]), how="str::parse::<f64> of the string itself")
-    rep.floor(rule, n, 2, "str::parse calls in src/exec")
+    rep.floor(rule, n, floor, "str::parse calls in " + prefix)
